@@ -2,10 +2,14 @@
 
 Coverage (property clause -> stream):
   BQM float64 / float32 / object storage     kinds bqm64 / bqm32 / bqmobj (+ raw adjacency / _adj dicts fed to the loop models)
+  float32 accumulation                       "big_f32": float32 BQM / QM with biases +-2**24, +-2**25, +-1, 3 (exact singly, partial
+                                             sums not representable in float32): the energy is the exact sum
   spin / binary views                        kind view, over a float64, float32 or object base ("vdtype")
   QM                                         kind qm, float64 and float32 storage ("qdtype")
   CQM objective / constraint / constant      cqm_obj / cqm_con / cqm_const, parent order shuffled, after a history of
-                                             remove_variable / fix_variable / relabel_variables on the parent
+                                             remove_variable / fix_variable / relabel_variables on the parent and of
+                                             remove_variable on the EXPRESSION itself ("xremove": the variable stays in the CQM,
+                                             later slots shift; reads and energies must still agree)
   DQM                                        kind dqm: dict, labelled array, SampleSet; case out of range; a variable omitted
   BinaryPolynomial                           kind poly: labelled array in any column order, dict, a variable omitted
   sample forms                               dict, (array, labels) in a random column order with extra columns and narrow /
@@ -113,6 +117,14 @@ def gen_case(rng, tier):
         desc["qdtype"] = 'f32'
     else:
         desc = gen.rand_desc(rng, nmax=6)
+    if (kind == 'bqm32' or desc.get("qdtype") == 'f32') and desc["vars"] and rng.random() < 0.35:
+        # large-magnitude biases, each exact in float32 (powers of two) and with exact products, whose PARTIAL SUMS are
+        # not representable in float32 (2**24 + 1): the documented accumulation is in the float64 result array
+        big = [2 ** 24, -2 ** 24, 2 ** 25, -2 ** 25, 1, -1, 3, 0, 2 ** 24, 1]
+        desc["lin"] = [[t[0], str(rng.choice(big))] for t in desc["lin"]]
+        desc["quad"] = [[t[0], t[1], str(rng.choice(big))] for t in desc["quad"]]
+        desc["off"] = str(rng.choice([0, 1, -1, 2 ** 24, 5]))
+        desc["big"] = True
     extra = gen.rand_desc(rng, nmax=3)["vars"] if kind.startswith('cqm') else []
     have = {str(v[0]) for v in desc["vars"]}
     extra = [v for v in extra if str(v[0]) not in have]
@@ -153,10 +165,25 @@ def gen_case(rng, tier):
         c["cqm_order"] = order
         hist = []
         if allvars and rng.random() < 0.6:
-            for i in rng.sample(range(len(allvars)), rng.randint(1, min(3, len(allvars)))):
+            picks = rng.sample(range(len(allvars)), rng.randint(1, min(3, len(allvars))))
+            forced = None
+            if len(desc["vars"]) >= 3 and rng.random() < 0.5:
+                forced = rng.randrange(len(desc["vars"]) - 2)      # an early slot of the expression: >= 2 slots follow it
+                picks = [forced] + [i for i in picks if i != forced][:1]
+                rng.shuffle(picks)
+            for i in picks:
                 vt = allvars[i][1]
                 r = rng.random()
-                if r < 0.2 and form != 'unlabelled':
+                if i != forced and rng.random() < 0.2:
+                    # edits through the expression's own API: a bias on a variable (appended to the expression if new to
+                    # it), an interaction with another variable, removal of an interaction
+                    j = rng.randrange(len(allvars))
+                    hist.append([rng.choice(["xadd_linear", "xadd_quadratic", "xremove_interaction"]), i, j, str(rng.dyadic(4, 1))])
+                elif (i == forced or rng.random() < 0.35) and i < len(desc["vars"]):
+                    # the EXPRESSION's own remove_variable (objective.remove_variable / lhs.remove_variable): the
+                    # variable stays in the CQM, later slots of the expression shift down
+                    hist.append(["xremove", i])
+                elif r < 0.2 and form != 'unlabelled':
                     hist.append(["relabel", i])
                 elif r < 0.6:
                     hist.append(["remove", i])
@@ -476,7 +503,24 @@ def run_case(c):
         for op in c.get("cqm_hist", []):
             v = dec_label(allvars[op[1]][0])
             v = labels[op[1]]
-            if op[0] == "remove":
+            if op[0] in ("xadd_linear", "xadd_quadratic", "xremove_interaction"):
+                w = labels[op[2]]
+                try:
+                    if op[0] == "xadd_linear":
+                        target.add_linear(v, float(F(op[3])))
+                    elif op[0] == "xadd_quadratic":
+                        target.add_quadratic(v, w, float(F(op[3])))
+                    else:
+                        target.remove_interaction(v, w)
+                    feats["xedit"] = True
+                except (ValueError, KeyError):
+                    pass                      # refused edit (self-loop of a binary, REAL interaction, absent interaction)
+            elif op[0] == "xremove":
+                target.remove_variable(v)
+                feats["xremove"] = True
+                if v not in cqm.variables or v in target.variables:
+                    return {"py_fail": "expression.remove_variable: the variable must leave the expression and stay in the CQM", "features": feats}
+            elif op[0] == "remove":
                 cqm.remove_variable(v)
             elif op[0] == "relabel":
                 new = ('r', op[1])
@@ -525,6 +569,8 @@ def run_case(c):
     vars_ = clist([cnat(T.idx(v)) for v in mvars])
     feats["form"] = form
     feats["nvars"] = len(mvars)
+    if desc.get("big"):
+        feats["big_f32"] = True
     extra = []
     t_as = as_samples_case(sl, T)
     if t_as:
